@@ -13,6 +13,8 @@ import ForML.Lemmas.C06Render
 import ForML.Lemmas.C06Window
 import ForML.Lemmas.C06Hints
 import ForML.Lemmas.C06Lazy
+import ForML.Lemmas.C06Sugar
+import ForML.Lemmas.C06File
 import ForML.Model.FeedCache
 
 namespace ForML.C06
@@ -77,6 +79,40 @@ theorem C06_parse_spec (srcs : Sources) (s : Source) (h : WF srcs s = true) :
 theorem C06_parse_total (srcs : Sources) (s : Source) (h : WF srcs s = true) : ∃ q, parse srcs s = .ok q := by
   obtain ⟨q, _, hp⟩ := C06_parse_spec srcs s h
   exact ⟨q, hp⟩
+
+/-! ### the Python operator surface the statements are written in -/
+
+open ForML.Sugar (PyExpr PyOp Operand)
+
+/-- the documented meaning of every operator method of `Operable`: method ↦ (expression class, operand order) -/
+def sugarSpec : List (String × (String × String)) := [
+  ("__add__", ("Addition", "self-other")), ("__and__", ("And", "self-other")), ("__eq__", ("Equal", "self-other")),
+  ("__ge__", ("GreaterEqual", "self-other")), ("__gt__", ("GreaterThan", "self-other")), ("__invert__", ("Not", "self")),
+  ("__le__", ("LessEqual", "self-other")), ("__lt__", ("LessThan", "self-other")), ("__mod__", ("Modulus", "self-other")),
+  ("__mul__", ("Multiplication", "self-other")), ("__ne__", ("NotEqual", "self-other")), ("__or__", ("Or", "self-other")),
+  ("__radd__", ("Addition", "other-self")), ("__rand__", ("And", "other-self")), ("__rmod__", ("Modulus", "other-self")),
+  ("__rmul__", ("Multiplication", "other-self")), ("__ror__", ("Or", "other-self")),
+  ("__rsub__", ("Subtraction", "other-self")), ("__rtruediv__", ("Division", "other-self")),
+  ("__sub__", ("Subtraction", "self-other")), ("__truediv__", ("Division", "self-other"))]
+
+/-- the operator methods of the live `Operable` (probed with marker operands on every run) are the documented ones:
+a reflected method `__rop__` puts `other` first -/
+theorem C06_sugar_table : Generated.C06.sugar = sugarSpec := by decide
+
+/-- every binary operator with at least one feature operand constructs a feature: the operator's documented class with
+the operands in the written order, or — comparisons only, the interpreter's own mirroring — the mirrored class with the
+operands exchanged -/
+theorem C06_sugar_binary (op : PyOp) (a b : Operand) (h : (∃ f, a = .feat f) ∨ (∃ f, b = .feat f)) :
+    Sugar.binary op a b = some (.expr op.dsl (.cons a.lift (.cons b.lift .nil))) ∨
+      (op.isComparison = true ∧
+        Sugar.binary op a b = some (.expr (mirrorOp op.dsl) (.cons b.lift (.cons a.lift .nil)))) :=
+  binary_spec op a b h
+
+/-- the feature a Python expression over plain values and features constructs (any nesting, plain values on either
+side, `~`) has on every row the value of the expression it is documented to mean -/
+theorem C06_sugar_denotes (e : PyExpr) (f : Feature) (h : e.eval = some (.feat f)) (labels : Labels) (g : List Row)
+    (row : Row) : evalF labels f g row = evalF labels e.spec g row :=
+  sugarEq_sem (eval_spec e f h) labels g row
 
 /-! ### origin resolution: references, self-joins -/
 
@@ -627,6 +663,34 @@ theorem C06_independence_lazy_partial (srcs : Sources) (k : Nat) (feeds : List F
     ⟨rfl, by intro q v h; simp [List.lookup] at h, by intro q v h; simp [List.lookup] at h,
      by intro key c h; simp [List.lookup] at h, by intro t ht; simp at ht, by intro i s q h; simp [List.lookup] at h⟩
 
+/-! #### several feeds in one process -/
+
+private theorem fresh_append (feeds : List Feed) (dbs : List Db) : ∀ (pre post : List FeedCache.Op), noMutate pre = true →
+    fresh feeds dbs (pre ++ post) = fresh feeds dbs pre ++ fresh feeds dbs post
+  | [], _, _ => rfl
+  | .read i s :: pre, post, h => by
+    simp only [List.cons_append, fresh, fresh_append feeds dbs pre post (by simpa [noMutate] using h)]
+  | .mutate i db :: pre, post, h => by simp [noMutate] at h
+  | .restart :: pre, post, h => by
+    simp only [List.cons_append, fresh, fresh_append feeds dbs pre post (by simpa [noMutate] using h)]
+
+private theorem noMutate_append : ∀ (a b : List FeedCache.Op), noMutate (a ++ b) = (noMutate a && noMutate b)
+  | [], b => by simp [noMutate]
+  | .read _ _ :: a, b => by simp [noMutate, noMutate_append a b]
+  | .mutate _ _ :: a, b => by simp [noMutate]
+  | .restart :: a, b => by simp [noMutate, noMutate_append a b]
+
+/-- A read through feed `f` depends only on `f`'s own mapping and storage: whatever other feeds of the process (same
+connection, other source ↦ table mappings) read before — the same statement included — the read returns the fresh
+evaluation of the statement under `f.srcs` (the parse cache is per reader, the result cache per rendered SQL). -/
+theorem C06_read_own_feed (feeds : List Feed) (dbs : List Db) (k : Nat) (pre : List FeedCache.Op) (i : Nat) (s : Source)
+    (f : Feed) (hf : allOn k feeds = true) (hn : noMutate pre = true) (hi : feeds[i]? = some f) :
+    (run feeds { storages := dbs } (pre ++ [.read i s])).getLast? = some (readRows f.srcs s (dbs.getD k [])) := by
+  have hfk := List.all_eq_true.mp hf f (List.mem_of_getElem? hi)
+  simp only [Bool.and_eq_true, beq_iff_eq] at hfk
+  rw [C06_independence_partial feeds dbs k _ hf (by rw [noMutate_append, hn]; rfl), fresh_append feeds dbs pre _ hn]
+  simp [fresh, hi, hfk.2]
+
 /-- `A.select(A.x).where(A.x > n)`: a family of statements that differ in one literal only -/
 def Witness.selGt (n : Int) : Source :=
   .query Witness.A (.cons (.elem Witness.A "x") .nil)
@@ -649,6 +713,45 @@ example : allOn 0 [Witness.feedOn 0] = true ∧
        some ⟨[some "x"], [[.int 30], [.int 50]]⟩] := by
   decide
 
+/-- non-vacuity of `C06_read_own_feed`: two feeds on ONE storage (same connection) that map the schema `A` to different
+physical tables read the same statement one after the other, also after a restart: each gets its own table's rows -/
+example :
+    run [{ kind := .alchemy, srcs := [(Witness.A, "a")], storage := 0 }, { kind := .alchemy, srcs := [(Witness.A, "a2")], storage := 0 }]
+      { storages := [[("a", ⟨["id", "x"], [[.int 1, .int 10]]⟩), ("a2", ⟨["id", "x"], [[.int 1, .int 20], [.int 2, .int 30]]⟩)]] }
+      [.read 0 Witness.sel, .read 1 Witness.sel, .restart, .read 1 Witness.sel, .read 0 Witness.sel] =
+      [some ⟨[some "x"], [[.int 10]]⟩, some ⟨[some "x"], [[.int 20], [.int 30]]⟩, some ⟨[some "x"], [[.int 20], [.int 30]]⟩,
+       some ⟨[some "x"], [[.int 10]]⟩] := by
+  decide
+
+/-! ### file backed origins (`monolite`) -/
+
+open ForML.FileOrigin (effective csvDefaults loadCsv writeCsv)
+
+/-- an option the user configures reaches the reader with the user's value … -/
+theorem C06_file_options_user_wins (defaults user : FileOrigin.Options) (k v : String) (h : user.lookup k = some v) :
+    (effective defaults user).lookup k = some v := by
+  simp [effective, lookup_merge, h]
+
+/-- … and an option the user does not mention keeps the class default -/
+theorem C06_file_options_default (defaults user : FileOrigin.Options) (k : String) (h : user.lookup k = none) :
+    (effective defaults user).lookup k = defaults.lookup k := by
+  simp [effective, lookup_merge, h]
+
+/-- whatever the user configures: the file these options describe (a header line exactly when the effective `header`
+option says so) is loaded to exactly its content rows -/
+theorem C06_csv_load_content (user : FileOrigin.Options) (cols : List String) (rows file : List Row)
+    (h : writeCsv (effective csvDefaults user) cols rows = some file) :
+    loadCsv (effective csvDefaults user) file = some rows :=
+  loadCsv_writeCsv _ cols rows file h
+
+/-- non-vacuity: a headerless file configured with `header=None` keeps its first row; by default the header line goes -/
+example :
+    loadCsv (effective csvDefaults [("header", "None")]) [[.int 1, .int 10], [.int 2, .int 20]] =
+      some [[.int 1, .int 10], [.int 2, .int 20]] ∧
+    loadCsv (effective csvDefaults [("sep", ";")]) [[.str "sensor", .str "value"], [.int 1, .int 10]] = some [[.int 1, .int 10]] ∧
+    writeCsv (effective csvDefaults [("header", "None")]) ["sensor", "value"] [[.int 1, .int 10]] = some [[.int 1, .int 10]] := by
+  decide
+
 /-- non-vacuity of `C06_independence_lazy_partial`: the same family through a lazy feed, with a restart -/
 example : allLazyOn [(Witness.A, "a")] 0 [Witness.lazyOn 0] = true ∧
     lazyReadsOk [(Witness.A, "a")] Witness.db3
@@ -656,6 +759,27 @@ example : allLazyOn [(Witness.A, "a")] 0 [Witness.lazyOn 0] = true ∧
     run [Witness.lazyOn 0] { storages := [Witness.db3] }
       [.read 0 (Witness.selGt 25), .read 0 (Witness.selGt 45), .restart, .read 0 (Witness.selGt 25)] =
       [some ⟨[some "x"], [[.int 30], [.int 50]]⟩, some ⟨[some "x"], [[.int 50]]⟩, some ⟨[some "x"], [[.int 30], [.int 50]]⟩] := by
+  decide
+
+/-- non-vacuity: `100 / A.x`, `5 < A.x`, `~(A.x - 1 > 2)` -/
+example :
+    (PyExpr.bin .truediv (.val (.int 100)) (.feat (.elem Witness.A "x"))).eval =
+      some (.feat (.expr .div (.cons (.lit (.int 100)) (.cons (.elem Witness.A "x") .nil)))) ∧
+    (PyExpr.bin .lt (.val (.int 5)) (.feat (.elem Witness.A "x"))).eval =
+      some (.feat (.expr .gt (.cons (.elem Witness.A "x") (.cons (.lit (.int 5)) .nil)))) ∧
+    (PyExpr.inv (.bin .gt (.bin .sub (.feat (.elem Witness.A "x")) (.val (.int 1))) (.val (.int 2)))).eval =
+      some (.feat (.expr .not (.cons (.expr .gt (.cons (.expr .sub (.cons (.elem Witness.A "x") (.cons (.lit (.int 1)) .nil)))
+        (.cons (.lit (.int 2)) .nil))) .nil))) := by
+  refine ⟨rfl, rfl, rfl⟩
+
+/-- `PARTITIONS` is keyed by the origin — class and source: a second lazy feed whose table comes from an origin of the
+same class is served the first feed's registration (C06-F4), one whose origin is of another class (a parquet file
+against a CSV file) registers its own content -/
+example :
+    run [Witness.lazyOn 0, Witness.lazyOn 1] { storages := [Witness.db1, Witness.db2] }
+      [.read 0 Witness.sel, .read 1 (Witness.selGt 0)] = [some ⟨[some "x"], [[.int 10]]⟩, some ⟨[some "x"], [[.int 10]]⟩] ∧
+    run [Witness.lazyOn 0, { Witness.lazyOn 1 with origins := [(Witness.A, "Parquet")] }] { storages := [Witness.db1, Witness.db2] }
+      [.read 0 Witness.sel, .read 1 (Witness.selGt 0)] = [some ⟨[some "x"], [[.int 10]]⟩, some ⟨[some "x"], [[.int 20]]⟩] := by
   decide
 
 end ForML.C06
